@@ -30,7 +30,11 @@ RULE = (
     "1200 spikes at once (thorough: 999 / 1000 / 1200 / 2500). Oracle: triple loop 'value "
     "whose column index names that channel for the spike's template, else 0'. Non-trivial: a "
     "requested channel absent for some spikes and present for others, or an unsorted request, or "
-    "a row table.")
+    "a row table."
+    ' Later additions: requests of more than 2**18 (thorough 2**20) stored rows, a row table of 4'
+    '0 000 entries, NaN/inf stored values, results edited in place then the same request again, s'
+    'tore rows padded with -1, an earlier extraction in the same session, from_sparse called agai'
+    'n on the same (unchanged) arrays.')
 ASSUMPTIONS = ['numpy.linalg.eigh in the PCA oracle']
 
 
